@@ -99,3 +99,16 @@ package seq
 //@   loop 0 invariant forall k int :: 0 <= k && k < len(left) ==> p(left[k])
 //@   loop 0 invariant forall k int :: 0 <= k && k < len(right) ==> !p(right[k])
 //@   loop 0 decreases len(r) - idx_
+//
+//@ func Sort(r, ord) result
+//@   prop C04 C10
+//@   ensures len(result) == len(r)
+//@   ensures forall i, j int :: 0 <= i && i < j && j < len(result) ==> !ord.Less(result[j], result[i])
+//@   ensures len(r) > 0 ==> Fresh(result)
+//@   ensures Unchanged()
+//
+//@ func (*seqSorter).Swap(p, i, j)
+//@   prop C10
+//@   option frame=off
+//@   requires 0 <= i && i < len(p.seq) && 0 <= j && j < len(p.seq)
+//@   ensures Eq(p.seq[i], verifspec.Old(p.seq[j])) 
